@@ -331,6 +331,9 @@ func (sf *schemafier) schemafy(attr *expr.AttributeExpr, noref ...bool) *openapi
 		if metaName != "" {
 			sf.named[s.Ref] = metaRef
 		}
+		// Reserve the name before computing the schema: the types the
+		// attributes refer to must not be given the same name.
+		sf.schemas[typeName] = nil
 		sf.schemas[typeName] = sf.schemafy(t.Attribute(), true)
 		return s // All other schema properties are set in the reference
 	default:
